@@ -491,19 +491,21 @@ def r21_guard_drop(f, guard_calls):
         f.apply(edits, "R21")
 
 
-REROOT = [("std::str::from_utf8", "strs::from_utf8"), ("std::fs::", "fs::"), ("std::mem::", "mem::"), ("std::thread::", "thread::"), ("std::path::", "path::"), ("std::env::", "env::"), ("std::process::", "process::")]
+REROOT = [("std::str::from_utf8", "strs::from_utf8"), ("std::fs::read_dir", "fs_dir::read_dir"), ("std::fs::", "fs::"), ("std::mem::", "mem::"), ("std::thread::", "thread::"), ("std::path::", "path::"), ("std::env::", "env::"), ("std::process::", "process::")]
 
 
 def r17_reroot(f):
     """R17: paths into std modules that the prelude models (`std::fs::X`, `std::mem::take`, ..) are re-rooted onto the stub modules"""
     edits = []
     c = f.code
-    for a, b in REROOT:
+    taken = set()
+    for a, b in sorted(REROOT, key=lambda ab: -len(ab[0])):
         want = [t.text for t in tokenize(a)]
         n = len(want)
         for i in range(len(c) - n + 1):
-            if c[i].text == want[0] and [t.text for t in c[i:i + n]] == want and not (i > 0 and c[i - 1].text == "::"):
+            if c[i].text == want[0] and [t.text for t in c[i:i + n]] == want and not (i > 0 and c[i - 1].text == "::") and i not in taken:
                 edits.append((c[i].pos, c[i + n - 1].end, b))
+                taken.add(i)
     if edits:
         f.apply(edits, "R17")
 
